@@ -1,6 +1,6 @@
 (** C15 -- fallible operations fail by value, not by panic or hang.
-    Theorem-only file: each theorem is closed by [exact] of a lemma of Proofs/C15.v and followed by
-    [Print Assumptions].
+    Theorem-only file (written by tools/c15_mkprops.py): each theorem is closed by [exact] of a lemma of
+    Proofs/C15.v, Proofs/C15Owners.v or Proofs/C15Strftime.v and followed by [Print Assumptions].
 
     C15 is cross-cutting: its model is the union of all properties' models (Model/C15.v) and its
     theorems are corollaries of the owners' theorems (Props/C01.v ... Props/C19.v), restated in the one
@@ -9,16 +9,20 @@
         for ALL arguments of the Rust argument types, the modelled entry point RETURNS
         ([returns r]: r is neither [Panic] -- an arithmetic overflow, a slice off a character boundary,
         an index out of bounds, an unwrap of None -- nor [OutOfFuel] -- a loop that did not end within
-        its proved bound), and a returned value is a VALID value of its type.
+        its proved bound), and a returned value is a VALID value of its type (validity in the owner's
+        vocabulary: [date_valid] = exists y o, repr y o d; Proofs.C02.valid_ndt; Proofs.C03.nvalid / vdate;
+        Proofs.C04.dtz_ok / ndt_ok / off_ok; Proofs.C06.valid; [time_valid] = Proofs.Time.tvalid).
 
+    plus one dedicated proof (Proofs/C15Strftime.v): the slice-safety invariant of the format-string
+    iterator.  Theorems named *_partial exclude a stated sub-domain (the comment in front says which).
     Which inventory entries (gen/C15_inventory.json, printed in the evidence) have such a theorem and
-    which are covered by correspondence + judge only is recorded per entry in that table and summarised
-    in trusted_base.json ("assumptions_C15"). *)
+    which are covered by correspondence + judge only is listed at the end of this file. *)
 From Coq Require Import ZArith List Bool String.
 From V Require Import Base.Int Base.IO Spec.Gregorian Model.Strftime Proofs.C15 Proofs.C15Owners Proofs.C15Strftime.
 From V Require Model.Date Model.Time Model.DateTime Model.TimeDelta Model.DateExtra Model.Parsed Model.Parse Model.Rfc3339 Model.C02 Model.C15 Model.C19 Gen.Strftime.
 Import ListNotations.
 Open Scope Z_scope.
+
 
 (** ** NaiveDate constructors (C01): every i32 / u32 argument; never a trap; the date returned is valid *)
 Theorem C15_from_ymd_opt_total : forall y m dd, 
@@ -434,3 +438,222 @@ Example C15_hypotheses_inhabited :
   Model.C15.item_count (B"%c%c") false = VInt 26 /\ Model.C15.sf_parse (B"%Q") false = VErr B"BadFormat".
 Proof. exact hypotheses_inhabited. Qed.
 Print Assumptions C15_hypotheses_inhabited.
+
+(** ** Inventory of the public fallible entry points (gen/C15_inventory.json) by kind of no-panic evidence
+
+   THEOREM of this file:
+     C15_and_hms_total
+       NaiveDate::and_hms_opt; NaiveDate::and_hms_milli_opt; NaiveDate::and_hms_micro_opt;
+       NaiveDate::and_hms_nano_opt;
+     C15_date_days_total
+       NaiveDate::checked_add_days; NaiveDate::checked_sub_days;
+     C15_date_months_total
+       NaiveDate::checked_add_months; NaiveDate::checked_sub_months;
+     C15_date_signed_total
+       NaiveDate::checked_add_signed; NaiveDate::checked_sub_signed;
+     C15_date_with_total
+       <NaiveDate as Datelike>::with_year; <NaiveDate as Datelike>::with_month;
+       <NaiveDate as Datelike>::with_month0; <NaiveDate as Datelike>::with_day;
+       <NaiveDate as Datelike>::with_day0; <NaiveDate as Datelike>::with_ordinal;
+       <NaiveDate as Datelike>::with_ordinal0;
+     C15_dtz_with_time_field_total
+       <DateTime<Tz> as Timelike>::with_hour; <DateTime<Tz> as Timelike>::with_minute;
+       <DateTime<Tz> as Timelike>::with_second; <DateTime<Tz> as Timelike>::with_nanosecond;
+     C15_fixed_offset_ctor_total
+       FixedOffset::east_opt; FixedOffset::west_opt;
+     C15_from_isoywd_opt_total
+       NaiveDate::from_isoywd_opt;
+     C15_from_local_datetime_total
+       NaiveDateTime::and_local_timezone; TimeZone::from_local_datetime;
+     C15_from_num_days_from_ce_opt_total
+       NaiveDate::from_num_days_from_ce_opt;
+     C15_from_timestamp_micros_total
+       DateTime<Utc>::from_timestamp_micros;
+     C15_from_timestamp_millis_total
+       DateTime<Utc>::from_timestamp_millis;
+     C15_from_timestamp_total
+       DateTime<Utc>::from_timestamp;
+     C15_from_weekday_of_month_opt_total
+       NaiveDate::from_weekday_of_month_opt;
+     C15_from_ymd_opt_total
+       NaiveDate::from_ymd_opt;
+     C15_from_yo_opt_total
+       NaiveDate::from_yo_opt;
+     C15_month_num_days_total
+       Month::num_days;
+     C15_ndt_months_total
+       NaiveDateTime::checked_add_months; NaiveDateTime::checked_sub_months;
+     C15_ndt_offset_total
+       NaiveDateTime::checked_add_offset; NaiveDateTime::checked_sub_offset;
+     C15_ndt_with_time_total
+       <NaiveDateTime as Timelike>::with_hour; <NaiveDateTime as Timelike>::with_minute;
+       <NaiveDateTime as Timelike>::with_second; <NaiveDateTime as Timelike>::with_nanosecond;
+     C15_parse_from_rfc3339_total
+       DateTime<FixedOffset>::parse_from_rfc3339;
+     C15_parsed_setters_total
+       Parsed::set_year; Parsed::set_year_div_100; Parsed::set_year_mod_100; Parsed::set_isoyear;
+       Parsed::set_isoyear_div_100; Parsed::set_isoyear_mod_100; Parsed::set_quarter; Parsed::set_month;
+       Parsed::set_week_from_sun; Parsed::set_week_from_mon; Parsed::set_isoweek; Parsed::set_weekday;
+       Parsed::set_ordinal; Parsed::set_day; Parsed::set_ampm; Parsed::set_hour12; Parsed::set_hour;
+       Parsed::set_minute; Parsed::set_second; Parsed::set_nanosecond; Parsed::set_timestamp; Parsed::set_offset;
+     C15_strftime_parse_total
+       StrftimeItems<'a>::parse; StrftimeItems<'a>::parse_to_owned;
+     C15_succ_pred_total
+       NaiveDate::succ_opt; NaiveDate::pred_opt;
+     C15_td_add_total
+       TimeDelta::checked_add;
+     C15_td_ctor_valid
+       TimeDelta::new; TimeDelta::try_weeks; TimeDelta::try_days; TimeDelta::try_hours; TimeDelta::try_minutes;
+       TimeDelta::try_seconds;
+     C15_td_display_total
+       <TimeDelta as fmt::Display>::fmt;
+     C15_td_div_total
+       TimeDelta::checked_div;
+     C15_td_millis_total
+       TimeDelta::try_milliseconds;
+     C15_td_mul_total
+       TimeDelta::checked_mul;
+     C15_td_sub_total
+       TimeDelta::checked_sub;
+     C15_time_ctor_total
+       NaiveTime::from_hms_opt; NaiveTime::from_hms_milli_opt; NaiveTime::from_hms_micro_opt;
+       NaiveTime::from_hms_nano_opt;
+     C15_to_naive_date_total
+       Parsed::to_naive_date;
+     C15_to_naive_datetime_with_offset_total
+       Parsed::to_naive_datetime_with_offset;
+     C15_to_naive_time_total
+       Parsed::to_naive_time;
+     C15_tz_timestamp_total
+       TimeZone::timestamp_opt; TimeZone::timestamp_millis_opt; TimeZone::timestamp_micros;
+     C15_week_total
+       NaiveWeek::checked_first_day; NaiveWeek::checked_last_day; NaiveWeek::checked_days;
+     C15_weekday_month_conversions
+       <Month as TryFrom<u8>>::try_from; <Month as num_traits::FromPrimitive>::from_u64;
+       <Month as num_traits::FromPrimitive>::from_i64; <Month as num_traits::FromPrimitive>::from_u32;
+       <Weekday as TryFrom<u8>>::try_from; <Weekday as num_traits::FromPrimitive>::from_i64;
+       <Weekday as num_traits::FromPrimitive>::from_u64;
+     C15_weekday_month_from_str_total
+       <Weekday as FromStr>::from_str; <Month as FromStr>::from_str;
+     C15_with_time_total
+       DateTime<Tz>::with_time;
+     C15_with_ymd_and_hms_total
+       TimeZone::with_ymd_and_hms;
+     C15_years_since_total
+       NaiveDate::years_since;
+
+   PARTIAL theorem of this file (sub-domain stated at the theorem):
+     C15_dtz_days_partial
+       DateTime<Tz>::checked_add_days; DateTime<Tz>::checked_sub_days;
+     C15_dtz_months_partial
+       DateTime<Tz>::checked_add_months; DateTime<Tz>::checked_sub_months;
+     C15_dtz_signed_total_partial
+       DateTime<Tz>::checked_add_signed; DateTime<Tz>::checked_sub_signed;
+     C15_dtz_with_date_field_partial
+       <DateTime<Tz> as Datelike>::with_year; <DateTime<Tz> as Datelike>::with_month;
+       <DateTime<Tz> as Datelike>::with_month0; <DateTime<Tz> as Datelike>::with_day;
+       <DateTime<Tz> as Datelike>::with_day0; <DateTime<Tz> as Datelike>::with_ordinal;
+       <DateTime<Tz> as Datelike>::with_ordinal0;
+     C15_ndt_days_total_partial
+       NaiveDateTime::checked_add_days; NaiveDateTime::checked_sub_days;
+     C15_ndt_signed_total_partial
+       NaiveDateTime::checked_add_signed; NaiveDateTime::checked_sub_signed;
+     C15_parse_items_total_partial
+       parse::parse; parse::parse_and_remainder;
+     C15_timestamp_nanos_opt_total_partial
+       DateTime<Tz>::timestamp_nanos_opt;
+     C15_to_rfc3339_opts_total_partial
+       DateTime<Tz>::to_rfc3339_opts;
+
+   OWNER's theorem states [= Val ...] for all typed arguments (not restated here):
+     owner: C06_from_std
+       TimeDelta::from_std; TimeDelta::to_std;
+     owner: C06_num_microseconds
+       TimeDelta::num_microseconds; TimeDelta::num_nanoseconds;
+     owner: C07_ctor_accept_iff_secs
+       NaiveTime::from_num_seconds_from_midnight_opt;
+     owner: C07_replace_exact_hour
+       <NaiveTime as Timelike>::with_hour; <NaiveTime as Timelike>::with_minute;
+       <NaiveTime as Timelike>::with_second; <NaiveTime as Timelike>::with_nanosecond;
+     owner: C08_dt_years_since
+       DateTime<Tz>::years_since;
+     owner: C08_ndt_with
+       <NaiveDateTime as Datelike>::with_year; <NaiveDateTime as Datelike>::with_month;
+       <NaiveDateTime as Datelike>::with_month0; <NaiveDateTime as Datelike>::with_day;
+       <NaiveDateTime as Datelike>::with_day0; <NaiveDateTime as Datelike>::with_ordinal;
+       <NaiveDateTime as Datelike>::with_ordinal0;
+     owner: C19_members
+       WeekdaySet::single_day; WeekdaySet::first; WeekdaySet::last;
+
+   correspondence + judge ONLY:
+     none: C11_comment_total, C11_zone_scanner_total, C11_no_panic_on_grammar_partial are partial
+       DateTime<FixedOffset>::parse_from_rfc2822;
+     none: C12_format_spec covers the documented family; C15_strftime_never_panics covers the item iterator; formatting of arbitrary items: correspondence + judge
+       DelayedFormat<I>::write_to; <DelayedFormat<I> as Display>::fmt;
+     none: C17 theorems are conditional on links to C03 (modulo_add_exact); correspondence + judge
+       <DateTime<Tz> as DurationRound>::duration_round; <DateTime<Tz> as DurationRound>::duration_trunc;
+       <DateTime<Tz> as DurationRound>::duration_round_up; <NaiveDateTime as DurationRound>::duration_round;
+       <NaiveDateTime as DurationRound>::duration_trunc; <NaiveDateTime as DurationRound>::duration_round_up;
+     none: constant (returns Single(self)); no trapping step in the model
+       <FixedOffset as TimeZone>::offset_from_local_date; <FixedOffset as TimeZone>::offset_from_local_datetime;
+       <Utc as TimeZone>::offset_from_local_date; <Utc as TimeZone>::offset_from_local_datetime;
+     none: correspondence + judge
+       <DateTime<Tz> as fmt::Debug>::fmt; <DateTime<Tz> as fmt::Display>::fmt; <NaiveDate as fmt::Debug>::fmt;
+       <NaiveDate as fmt::Display>::fmt; <NaiveDateTime as fmt::Debug>::fmt;
+       <NaiveDateTime as fmt::Display>::fmt; <NaiveTime as fmt::Debug>::fmt; <NaiveTime as fmt::Display>::fmt;
+       <FixedOffset as fmt::Debug>::fmt; <FixedOffset as fmt::Display>::fmt; <Utc as fmt::Debug>::fmt;
+       <Utc as fmt::Display>::fmt; <Weekday as fmt::Display>::fmt; <WeekdaySet as Debug>::fmt;
+       <WeekdaySet as fmt::Display>::fmt;
+     none: field getters
+       Parsed::year; Parsed::year_div_100; Parsed::year_mod_100; Parsed::isoyear; Parsed::isoyear_div_100;
+       Parsed::isoyear_mod_100; Parsed::quarter; Parsed::month; Parsed::week_from_sun; Parsed::week_from_mon;
+       Parsed::isoweek; Parsed::weekday; Parsed::ordinal; Parsed::day; Parsed::hour_div_12; Parsed::hour_mod_12;
+       Parsed::minute; Parsed::second; Parsed::nanosecond; Parsed::timestamp; Parsed::offset;
+     none: outside C15 stream
+       <DateTime<Tz> as ser::Serialize>::serialize; <DateTime<FixedOffset> as de::Deserialize<'de>>::deserialize;
+       <DateTime<Utc> as de::Deserialize<'de>>::deserialize; serde::ts_nanoseconds::serialize#1;
+       serde::ts_nanoseconds::deserialize#1; serde::ts_nanoseconds_option::serialize#1;
+       serde::ts_nanoseconds_option::deserialize#1; serde::ts_microseconds::serialize#1;
+       serde::ts_microseconds::deserialize#1; serde::ts_microseconds_option::serialize#1;
+       serde::ts_microseconds_option::deserialize#1; serde::ts_milliseconds::serialize#1;
+       serde::ts_milliseconds::deserialize#1; serde::ts_milliseconds_option::serialize#1;
+       serde::ts_milliseconds_option::deserialize#1; serde::ts_seconds::serialize#1;
+       serde::ts_seconds::deserialize#1; serde::ts_seconds_option::serialize#1;
+       serde::ts_seconds_option::deserialize#1; <ParseError as fmt::Display>::fmt;
+       <OutOfRange as fmt::Display>::fmt; <OutOfRange as fmt::Debug>::fmt;
+       <ParseMonthError as fmt::Display>::fmt; <ParseMonthError as fmt::Debug>::fmt;
+       <Month as ser::Serialize>::serialize; <Month as de::Deserialize<'de>>::deserialize;
+       <NaiveDate as ser::Serialize>::serialize; <NaiveDate as de::Deserialize<'de>>::deserialize;
+       <NaiveDateTime as ser::Serialize>::serialize; <NaiveDateTime as de::Deserialize<'de>>::deserialize;
+       serde::ts_nanoseconds::serialize#2; serde::ts_nanoseconds::deserialize#2;
+       serde::ts_nanoseconds_option::serialize#2; serde::ts_nanoseconds_option::deserialize#2;
+       serde::ts_microseconds::serialize#2; serde::ts_microseconds::deserialize#2;
+       serde::ts_microseconds_option::serialize#2; serde::ts_microseconds_option::deserialize#2;
+       serde::ts_milliseconds::serialize#2; serde::ts_milliseconds::deserialize#2;
+       serde::ts_milliseconds_option::serialize#2; serde::ts_milliseconds_option::deserialize#2;
+       serde::ts_seconds::serialize#2; serde::ts_seconds::deserialize#2; serde::ts_seconds_option::serialize#2;
+       serde::ts_seconds_option::deserialize#2; <IsoWeek as fmt::Debug>::fmt;
+       <NaiveTime as ser::Serialize>::serialize; <NaiveTime as de::Deserialize<'de>>::deserialize;
+       <RoundingError as fmt::Display>::fmt; <OutOfRangeError as fmt::Display>::fmt;
+       <TimeDelta as Serialize>::serialize; <TimeDelta as Deserialize<'de>>::deserialize;
+       <ParseWeekdayError as fmt::Display>::fmt; <ParseWeekdayError as fmt::Debug>::fmt;
+       <Weekday as ser::Serialize>::serialize; <Weekday as de::Deserialize<'de>>::deserialize;
+     none: owner lemma Proofs/C10Writer.v to_rfc3339_ok (writer domain); correspondence + judge
+       DateTime<Tz>::to_rfc3339;
+     none: partial -- C13_rfc3339_relaxed_never_panics (owner), resolution step by correspondence + judge
+       <DateTime<Utc> as str::FromStr>::from_str; <DateTime<FixedOffset> as str::FromStr>::from_str;
+     none: partial -- C13_timezone_offset_never_panics (owner); correspondence + judge
+       <FixedOffset as FromStr>::from_str;
+     none: partial -- C15_parse_items_total_partial (fixed item lists), resolution by C15_to_naive_date_total / C15_to_naive_time_total; composition: correspondence + judge
+       <NaiveDate as str::FromStr>::from_str; <NaiveDateTime as str::FromStr>::from_str;
+       <NaiveTime as str::FromStr>::from_str;
+     none: partial -- C15_strftime_never_panics (item iterator) and C15_parse_items_total_partial (item reader); their lazy composition and the resolution step: correspondence + judge
+       DateTime<FixedOffset>::parse_from_str; DateTime<FixedOffset>::parse_and_remainder;
+       NaiveDate::parse_from_str; NaiveDate::parse_and_remainder; NaiveDateTime::parse_from_str;
+       NaiveDateTime::parse_and_remainder; NaiveTime::parse_from_str; NaiveTime::parse_and_remainder;
+     none: partial -- goes through C15_to_naive_datetime_with_offset_total; the final zone step: correspondence + judge
+       Parsed::to_fixed_offset; Parsed::to_datetime; Parsed::to_datetime_with_timezone;
+     none: pattern match only; no trapping step in the model
+       MappedLocalTime<T>::single; MappedLocalTime<T>::earliest; MappedLocalTime<T>::latest;
+
+*)
